@@ -1,7 +1,8 @@
 #!/bin/bash
+V=${VERIF_SRC:-/verif}   # where the harness sources are read from (a snapshot copy keeps a long matrix run stable)
 # Runs every seeded change against the check of its own property (and the related ones given in
 # seeded/<id>/meta.json "also") on scratch worktrees, 4 at a time, and writes seeded/MATRIX.md.
-cd /verif
+cd $V
 tier=${1:-quick}
 filter=${2:-.}   # optional regex on seed ids; with a filter the result is appended to seeded/MATRIX.md
 out=/tmp/matrix.$$; mkdir -p $out
@@ -10,7 +11,7 @@ ls seeded | grep -E '^C[0-9]+-m[0-9]+$' | grep -E "$filter" | while read id; do
 import json;m=json.load(open('seeded/$id/meta.json'));print(' '.join([m['property']]+m.get('also',[])))")
   echo "$id $props"
 done > $out/jobs
-cat $out/jobs | xargs -P 3 -L 1 sh -c 'id=$0; shift 0; /verif/tools/seedmatrix.sh "$id" '$tier' "$@" > '$out'/$id.log 2>&1'
+cat $out/jobs | xargs -P 3 -L 1 sh -c 'id=$0; shift 0; $V/tools/seedmatrix.sh "$id" '$tier' "$@" > '$out'/$id.log 2>&1'
 {
 echo "# Detection matrix of the seeded changes ($tier tier, $(date -u +%F))"
 echo
